@@ -437,7 +437,7 @@ func (d *decoder) parseDefinitionMessage(recordHeader byte) (*defmsg, error) {
 	if err != nil {
 		return nil, err
 	}
-	if dm.fields == 0 {
+	if dm.fields == 0 && recordHeader&devDataMask != devDataMask {
 		if d.debug {
 			d.opts.logger.Println("parseDefinitionMessage: warning: 0 fields")
 			d.opts.logger.Println("parseDefinitionMessage: message:", dm)
